@@ -8,7 +8,8 @@ from vlib import coq_hex, coq_bool, coq_value, jb, js, ji, jf_bits, jo, ja
 ID = "C26"
 THEOREMS = [
     "C26_varint", "C26_varint_len", "C26_zigzag", "C26_fixed", "C26_tag", "C26_len_delim", "C26_records",
-    "C26_scalar_wire", "C26_packed", "C26_wire_message", "C26_parse_canon",
+    "C26_scalar_wire", "C26_packed", "C26_wire_message", "C26_parse_canon", "C26_convert_shaped", "C26_message",
+    "C26_nonvacuous",
 ]
 IMPORTS_HEAD = ("From Coq Require Import String.\nFrom Coq Require Import List NArith ZArith.\n"
                 "From VRL Require Import Base.Bytes Base.Value Base.Lit Model.Proto Model.ProtoGlue Corr.C26.\n"
@@ -19,8 +20,29 @@ MANIFEST = {
                  "protobuf wire format (prost / prost-reflect DynamicMessage) and of src/protobuf/{encode,parse}.rs + "
                  "differential correspondence (wire bytes and parsed values) vs encode_proto/parse_proto run through compiled "
                  "VRL programs on the bundled descriptor sets, whose abstract descriptors are dumped from prost-reflect at run time",
-    "text": "see notes/C26.md",
-    "note": "see notes/C26.md",
+    "text": "Closed Coq theorems: varint (all n < 2^64, at most 10 bytes), zigzag, fixed32/64, keys, length-delimited payloads "
+            "and whole record sequences are read back exactly; every scalar kind, packed and unpacked repeated fields, maps and "
+            "embedded messages to any depth decode to the normal form of what was encoded (C26_wire_message, induction on the "
+            "nesting depth); encode_message on any message-shaped value (scalars in range, exact f32 in float fields, UTF-8 "
+            "strings, enums by canonical name, repeated, maps with canonical keys, nested) yields a well-typed dynamic message "
+            "whose proto_to_value is the value minus the fields holding the proto3 default (C26_convert_shaped); together: "
+            "parse_proto(encode_proto(v)) = strip_defaults(v) (C26_message) for every descriptor pool satisfying decidable "
+            "structural conditions, which the check evaluates on the four bundled descriptor sets as prost-reflect dumps them at "
+            "run time. The model is compared with the implementation on wire BYTES (maps with two or more entries: same length "
+            "and same decoding, HashMap order being arbitrary) and on parsed values, for message-shaped values of every bundled "
+            "message type (range edges, defaults, depth <= 3), for mis-shaped values (out-of-range integers, inexact floats, "
+            "enums by number / other case, invalid UTF-8, unknown keys, nulls, non-canonical map keys, arrays and lone values in "
+            "the wrong place, lossy string coercion on/off) and for hand-made wire data (unknown fields, every wire type, overlong "
+            "and overflowing varints, truncated payloads); parse(encode(v)) = strip_defaults(v) is searched directly.",
+    "note": "The wire layer is prost / prost-reflect library code modelled from the protobuf encoding spec and the crate sources "
+            "(tied by the byte-level correspondence); groups, extensions, real oneofs and required fields are not modelled (none "
+            "in the bundled descriptors; such message types would be skipped and logged). PUnmodelled conversions (Bytes parsed "
+            "into bool/numeric fields, Float/Timestamp into string, Timestamp into google.protobuf.Timestamp) are outside "
+            "`shaped` and are only compared for panics. The theorem's one non-structural premise is that every length prefix fits "
+            "64 bits (lens_msg). -0.0 in a field without presence is dropped like 0.0 (prost-reflect compares with ==): VRL's own "
+            "equality also identifies them, so strip_defaults drops both; map values exclude -0.0 in `shaped`. "
+            "Found for C04: encode_proto/parse_proto panic at compile time on a missing descriptor file or message type. "
+            "No axioms (Print Assumptions: closed).",
     "design_ref": "DESIGN.md section 5 C26",
 }
 
@@ -326,7 +348,8 @@ def rt_case(pi, mi, p, m, v, lossy=None, shaped=False):
 
 def gen_cases(run, n):
     rng = run.rng
-    cases = []
+    cases = [{"op": "desc", "file": p["file"], "type": t, "pool": pi}
+             for pi, (p, (_, t)) in enumerate(zip(pools(), DESC_FILES))]
     ts = targets()
     per = max(4, n * 6 // (10 * len(ts)))
     enc_inputs = []
@@ -373,13 +396,19 @@ def coq_vres(r):
 
 
 def to_coq(c, o):
+    if c["op"] == "desc":
+        if [m["name"] for m in o.get("messages", [])] != [m["name"] for m in pools()[c["pool"]]["messages"]]:
+            raise ValueError("descriptor dump changed during the run")
+        return "CPool pool_%d" % c["pool"]
+    pi = [f for f, _ in DESC_FILES].index(c["file"])          # by name, so corpus files survive descriptor changes
+    ty = pools()[pi]["index"][c["type"]]
     if c["op"] == "rt":
         lossy = c.get("lossy")
-        return "CRt pool_%d %d %s %s %s %s %s %s" % (c["pool"], c["ty"], coq_bool(True if lossy is None else lossy),
+        return "CRt pool_%d %d %s %s %s %s %s %s" % (pi, ty, coq_bool(True if lossy is None else lossy),
                                                     coq_bool(c.get("unordered", False)), coq_bool(c.get("shaped", False)),
                                                     coq_value(c["v"]), coq_ires(o["enc"]), coq_vres(o["dec"]))
     if c["op"] == "dec":
-        return "CDec pool_%d %d %s %s" % (c["pool"], c["ty"], coq_hex(c["b"]), coq_vres(o["dec"]))
+        return "CDec pool_%d %d %s %s" % (pi, ty, coq_hex(c["b"]), coq_vres(o["dec"]))
     raise ValueError(c["op"])
 
 
@@ -388,6 +417,8 @@ def known_matcher(entry, c, o):
 
 
 def nontrivial(c):
+    if c["op"] == "desc":
+        return True
     if c["op"] == "rt":
         return isinstance(c["v"], dict) and len(c["v"].get("o", [])) >= 1
     return len(c["b"]) >= 2
